@@ -136,8 +136,6 @@ MeaningOk(e) ==
       fin(s) == st[CHOOSE i \in DOMAIN st : st[i][1] = s][3]
       m(s) == Meaning(s, BytesOf(e, s), fin(s), Canon(e).client, TRUE)
       anyErr == \E s \in RSids(e) : m(s).err IN
-  \* judged only where the statement applies: no frame cut by a FIN
-  Trunc(e) # {} \/
   IF anyErr THEN e.closed # ""
   ELSE e.closed = "" /\ \A s \in RSids(e) : ObsToks(EvOf(ObsOf(e), s)) = NameToks(e, m(s).toks)
 
